@@ -21,7 +21,7 @@ PID = "C17"
 LEVEL = "proof"
 LEAN = ["SaVerif.Props.C17"]
 META = {
-    "text": "Lean theorem lambda_invocation_eq_direct: for ANY history of invocations of a lambda whose closure variables keep their kind (bound literal vs structural), with any user function that is parametric in its literal variables, every invocation through the lambda cache (analysis done once at the first call, cache keyed by code + structural values, bound values re-extracted from the current closure) yields the statement and parameters of the directly built statement for the CURRENT closure values; proved by induction over the history with a cache invariant; the stability hypothesis is necessary (kind_change_counterexample). Tied to sql/lambdas.py by a differential run: lambda-cache hit/miss pattern and extracted bound values per invocation vs model; the property itself is checked on the real code by comparing SQL (values substituted) and rows of every invocation with the directly built statement on SQLite, for 35 lambda templates over random value histories.",
+    "text": "Lean theorem lambda_invocation_eq_direct: for ANY history of invocations of a lambda whose closure variables keep their kind (bound literal vs structural), with any user function that is parametric in its literal variables, every invocation through the lambda cache (analysis done once at the first call, cache keyed by code + structural values, bound values re-extracted from the current closure) yields the statement and parameters of the directly built statement for the CURRENT closure values; proved by induction over the history with a cache invariant; the stability hypothesis is necessary (kind_change_counterexample). chain_invocation_eq_direct: for any history of linked-lambda chains (optional middle links, alternative roots) a cache keyed by an injective function of the whole path of code objects yields the directly built statement; truncated_key_counterexample shows (parent code, own code) is not enough. Tied to sql/lambdas.py by a differential run: lambda-cache hit/miss pattern and extracted bound values per invocation vs model; the property itself is checked on the real code by comparing SQL (values substituted) and rows of every invocation with the directly built statement on SQLite, for 45 lambda templates over random value histories.",
     "note": "Trusted / not modelled: CPython closure and code-object mechanics, AnalyzedCode bytecode rewriting and PyWrapper attribute tracking are covered by the differential only; the model's parametricity hypothesis (the user function uses literal closure values only as bound values) is an assumption about the generated templates. Known findings: integer index on a closure sequence raises TypeError at construction; helper functions from one factory (same code, different defaults) share a cache entry; a closure variable whose value is None is rendered as a bound parameter (`col = ?` with NULL) where the directly built statement renders `col IS NULL` — see known_findings.d/C17.json.",
     "technique": "Lean 4 induction over invocation histories with a cache invariant + differential correspondence (hit/miss, extracted values) + direct-construct oracle on SQLite",
     "design_ref": "DESIGN.md §3 C17",
@@ -427,7 +427,88 @@ def t_nested_lambda(env, v):
     )
 
 
+ROOT_OPTS = {
+    "default": {},
+    "tbv_false": {"track_bound_values": False},
+    "tracking_false": {"enable_tracking": False},
+    "tcv_false": {"track_closure_variables": False},
+    "track_on": None,  # track_on=[t], filled in below
+}
+LINKS = ["wa", "wb", "ws", "win", "wc", "wa2"]
+
+
+_CHAIN_SRC = r'''
+def t_chain_@@(env, v):
+    """general chain builder: a root created with (possibly non-default) per-lambda options,
+    extended by any sub-sequence of optional links with `+` or add_criteria, followed by
+    identical trailing links.  Every `lambda` below is ONE code object for the whole run."""
+    t = env.fx.t
+    a, b, s, vals = v["a"], v["b"], v["s"], list(v["vals"])
+    c = _col(env, v["col"])
+    kw = ROOT_OPTS["@@"]
+    if kw is None:
+        kw = {"track_on": [t]}
+    if v["root"] == "r1":
+        st = SA.lambda_stmt(lambda: SA.select(t.c.id, t.c.x), **kw)
+        d = SA.select(t.c.id, t.c.x)
+    else:
+        st = SA.lambda_stmt(lambda: SA.select(t.c.id), **kw)
+        d = SA.select(t.c.id)
+    plus = (lambda st_, fn: st_ + fn) if "%%" == "plus" else (lambda st_, fn: st_.add_criteria(fn))
+    for link in v["links"]:
+        if link == "wa":
+            st = plus(st, lambda q: q.where(t.c.x > a))
+            d = d.where(t.c.x > a)
+        elif link == "wa2":
+            st = plus(st, lambda q: q.where(t.c.x != a))
+            d = d.where(t.c.x != a)
+        elif link == "wb":
+            st = plus(st, lambda q: q.where(t.c.y < b))
+            d = d.where(t.c.y < b)
+        elif link == "ws":
+            st = plus(st, lambda q: q.where(t.c.s >= s))
+            d = d.where(t.c.s >= s)
+        elif link == "win":
+            st = plus(st, lambda q: q.where(t.c.x.in_(vals)))
+            d = d.where(t.c.x.in_(vals))
+        elif link == "wc":
+            st = plus(st, lambda q: q.where(c > a))
+            d = d.where(c > a)
+    # identical trailing links
+    st = plus(st, lambda q: q.order_by(c.desc()))
+    st = plus(st, lambda q: q.order_by(t.c.id))
+    d = d.order_by(c.desc()).order_by(t.c.id)
+    return st, d
+'''
+
+
+def _make_chain(opt, form):
+    """one copy of the chain builder per (root option, link form): its lambdas are distinct
+    code objects, so the links are analysed for the first time (AnalyzedCode is cached per
+    code object) under exactly that option and form"""
+    ns = {"SA": None, "ROOT_OPTS": ROOT_OPTS, "_col": _col}
+    code = compile(_CHAIN_SRC.replace("@@", opt).replace("%%", form), "<c17-chain-%s-%s>" % (opt, form), "exec")
+
+    def fn(env, v, _ns=ns, _code=code):
+        if "t_chain_" + opt not in _ns:
+            exec(_code, _ns)
+        _ns["SA"] = SA
+        return _ns["t_chain_" + opt](env, v)
+
+    return fn
+
+
 TEMPLATES = {
+    "chain_default_plus": (_make_chain("default", "plus"), ["a", "b2", "s", "vals", "col", "root", "links"]),
+    "chain_default_add_criteria": (_make_chain("default", "add_criteria"), ["a", "b2", "s", "vals", "col", "root", "links"]),
+    "chain_tbv_false_plus": (_make_chain("tbv_false", "plus"), ["a", "b2", "s", "vals", "col", "root", "links"]),
+    "chain_tbv_false_add_criteria": (_make_chain("tbv_false", "add_criteria"), ["a", "b2", "s", "vals", "col", "root", "links"]),
+    "chain_tracking_false_plus": (_make_chain("tracking_false", "plus"), ["a", "b2", "s", "vals", "col", "root", "links"]),
+    "chain_tracking_false_add_criteria": (_make_chain("tracking_false", "add_criteria"), ["a", "b2", "s", "vals", "col", "root", "links"]),
+    "chain_tcv_false_plus": (_make_chain("tcv_false", "plus"), ["a", "b2", "s", "vals", "col", "root", "links"]),
+    "chain_tcv_false_add_criteria": (_make_chain("tcv_false", "add_criteria"), ["a", "b2", "s", "vals", "col", "root", "links"]),
+    "chain_track_on_plus": (_make_chain("track_on", "plus"), ["a", "b2", "s", "vals", "col", "root", "links"]),
+    "chain_track_on_add_criteria": (_make_chain("track_on", "add_criteria"), ["a", "b2", "s", "vals", "col", "root", "links"]),
     "direct_and_attr": (t_direct_and_attr, ["s", "a", "b2"]),
     "two_attrs": (t_two_attrs, ["s", "a", "b2"]),
     "index": (t_index, ["a", "b2"]),
@@ -495,6 +576,14 @@ def gen_values(rng, kinds, stable=True):
             v["tab"] = rng.choice(["t", "u"])
         elif k == "n":
             v["n"] = rng.choice(lb.Y_VALUES) if stable else rng.choice([None, rng.choice(lb.Y_VALUES)])
+        elif k == "root_opt":
+            v["root_opt"] = rng.choice(sorted(ROOT_OPTS))
+        elif k == "root":
+            v["root"] = rng.choice(["r1", "r2"])
+        elif k == "form":
+            v["form"] = rng.choice(["plus", "plus", "add_criteria"])
+        elif k == "links":
+            v["links"] = [l for l in LINKS if rng.random() < 0.45]
         elif k == "fn":
             v["fn"] = rng.choice(["cx", "cy", "cb"])
         elif k == "ord":
@@ -588,6 +677,8 @@ def check_history(ctx, env, name, seq, corr=None, record=True):
                 el = getattr(el, "parent_lambda", None)
             if len(chain) == 1:
                 hist_model.append((chain, v))
+            elif corr is not None and name.startswith("chain_"):
+                corr.setdefault("chains", []).append(chain)
     if corr is not None and stable and hist_model:
         model_case(ctx, name, seq, hist_model, corr)
     if record:
@@ -647,13 +738,35 @@ def model_case(ctx, name, seq, hist, corr):
     corr["req"].append("lambda history " + ";".join(steps))
 
 
+def chain_corr(ctx, chains):
+    """lambda-cache hit/miss of the LAST link of every chain built during the run vs the
+    Lean model keyed by the FULL path of code objects (root first) + closure key"""
+    codes, sids, seen = {}, {}, {}
+    steps, impl = [], []
+    for chain in chains:
+        last = chain[0]
+        path = [codes.setdefault(el.fn.__code__, len(codes) + 1) for el in reversed(chain)]
+        try:
+            sid = sids.setdefault(last.closure_cache_key, len(sids))
+        except TypeError:
+            continue
+        rec = last._rec
+        impl.append("hit" if id(rec) in seen else "miss")
+        seen[id(rec)] = rec
+        steps.append("%s:%d" % (".".join(str(x) for x in path), sid))
+    if steps:
+        out = ctx.driver(["lambda chains " + ";".join(steps)])[0].split(";")
+        ctx.correspond("corr/c17:linked-lambda-cache-vs-Model.Lambda.runChains", [{"chain-steps": len(steps)}], [";".join(impl)], [";".join(out)])
+        ctx.count("chain-model-steps", len(steps))
+
+
 def run(ctx, deep=False):
     import warnings
 
     warnings.simplefilter("ignore")
     ctx.rule = (
-        "35 lambda templates (lambda_stmt, chained add_criteria incl. conditionally added links, lambda criteria in where(), with_loader_criteria, ORM entities; closure scalars, strings, "
-        "IN lists of varying length incl. empty, columns, tables, module globals, LIMIT, a literal used directly AND through attributes, integer indexes, helper functions held in the closure (different functions; one factory with different defaults), nested lambdas) x random histories (length 2..10) of closure values on one engine; "
+        "45 lambda templates (lambda_stmt, chained add_criteria incl. conditionally added links, lambda criteria in where(), with_loader_criteria, ORM entities; closure scalars, strings, "
+        "IN lists of varying length incl. empty, columns, tables, module globals, LIMIT, a literal used directly AND through attributes, integer indexes, helper functions held in the closure (different functions; one factory with different defaults), nested lambdas, a general chain builder: roots created with each non-default per-lambda option x `+` / add_criteria x any sub-sequence of optional links x identical trailing links, one code copy per (option, form)) x random histories (length 2..10) of closure values on one engine; "
         "90% of histories keep every variable's kind, 10% let a variable alternate between None and a value; a case = one history"
     )
     ctx.trusted += ["CPython closures/code objects and the bytecode rewriting of AnalyzedFunction (differential only)"]
@@ -673,6 +786,8 @@ def run(ctx, deep=False):
     # the known shape, always exercised
     check_history(ctx, env, "none", [{"n": 2005}, {"n": None}, {"n": 2010}], None, record=False)
     check_history(ctx, env, "none", [{"n": None}, {"n": 2005}], None, record=False)
+    if corr is not None and corr.get("chains"):
+        chain_corr(ctx, corr["chains"])
     if corr is not None and corr["req"]:
         out = ctx.driver(corr["req"])
         ctx.correspond("corr/c17:lambda-cache-vs-Model.Lambda", corr["cases"], corr["impl"], out)
